@@ -85,20 +85,35 @@ func switchToParentThread(L *LState, nargs int, haserror bool, kill bool) {
 	}
 	L.G.CurrentThread = parent
 	L.Parent = nil
+	need := parent.reg.top + nargs
 	if !L.wrapped {
-		if haserror {
-			parent.Push(LFalse)
-		} else {
-			parent.Push(LTrue)
-		}
+		need++
 	}
-	L.XMoveTo(parent, nargs)
+	fits := need <= cap(parent.reg.array) || need <= parent.reg.maxSize
+	if fits {
+		if !L.wrapped {
+			if haserror {
+				parent.Push(LFalse)
+			} else {
+				parent.Push(LTrue)
+			}
+		}
+		L.XMoveTo(parent, nargs)
+	} else {
+		// the resumer has no room for the values: that failure is the resumer's.
+		// This thread is left as it is after a completed hand-over (suspended in
+		// its yield, or dead) and the values are dropped
+		L.reg.SetTop(L.reg.Top() - nargs)
+	}
 	L.stack.Pop()
 	offset := L.currentFrame.LocalBase - L.currentFrame.ReturnBase
 	L.currentFrame = L.stack.Last()
 	L.reg.SetTop(L.reg.Top() - offset) // remove 'yield' function(including tailcalled functions)
 	if kill {
 		L.kill()
+	}
+	if !fits {
+		parent.registryOverflow()
 	}
 }
 
